@@ -30,7 +30,9 @@ RULE = ('cases = (values, dt, target_dt, even, entry point) calls of the real fu
         'fl(1/m)*npts not an integer (the decimation grid then runs past the last sample). Lengths from '
         'the shortest record of the quantifier ceil(2*max(dt,target)/dt)+1 (driven on purpose) to +200, odd and even, '
         'around powers of two, divisible and not divisible by the decimation factor, a few past 2**16. Records from the '
-        'shared classes plus ramps, plateau ends, extreme at the first/last sample, sign change at the end, one sample '
+        'shared classes (9% at extreme but valid scales: uniformly 1e+-165..1e+-300, 1e-150 next to 1e150 in one record, '
+        'ripple on a baseline closer than float32 resolution, counts above 2**24; Fourier signals at 1e+-165..1e+-295 and as '
+        'ripple on a baseline) plus ramps, plateau ends, extreme at the first/last sample, sign change at the end, one sample '
         '1e3..1e12 larger than the rest, one-sided, tail-heavy, single changed sample, alternating; amplitudes '
         '1e-12..1e12, large offsets on small signals. Array arguments as float64/float32/int64/int32/int16/int8/uint8/'
         'uint16 (using the whole dtype range), lists/tuples of floats, of ints, mixed, strided and reversed views, '
@@ -58,7 +60,8 @@ ASSUMPTIONS = ['finite real input, dt > 0, target_dt > 0, duration (n-1)*dt >= 2
                'complex records (fas2signal) are in domain; their range is judged on the real and imaginary parts',
                'validity of the tolerances: all are relative (step 1e-12, ratio 1e-9, range 1e-12*max|x|, band-limited '
                '1e-10*max|x| with harmonic index <= 450, or <= 300 for records past 2**16), so they hold for dt 1e-10..1e3 '
-               'and amplitudes 1e-12..1e12; no subnormal records are generated',
+               'and amplitudes 1e-300..1e300 (no absolute floors; no squares or products of samples are formed by the '
+               'oracle); records at extreme scales are kept in float64 / Python containers',
                'step rule evaluated with 1e-12 relative slack because the quotient dt/target is itself rounded',
                'even length is asserted for the interpolation variants only (the statement does not claim it for the '
                'Fourier variant; odd Fourier results with even=True are counted as an observation)',
@@ -345,6 +348,8 @@ def check_fourier(ctx, snap, dt, target, even, result):
             ctx.observe('fourier.K6 matched with FFT grid of %s points' % ('len(y)' if L == len(y) else 'len(y)+1 (parity trim)'))
     if okk:
         ctx.ok(prefix + 'bandlimited-exact')
+        if Ks >= 1 and (scale < 1e-150 or scale > 1e150):
+            ctx.observe(prefix + 'judged at an extreme scale (max|x| %s)' % ('< 1e-150' if scale < 1 else '> 1e150'))
         if f32:
             ctx.observe(prefix + 'float32 samples judged with 64*eps32')
     else:
@@ -965,7 +970,7 @@ def synth_bandlimited(rng, N, Kmax, mode, scales=True):
             amp = 10.0 ** (e if rng.random() < 0.5 else -e)
         elif r < 0.52 and ks:
             a[0] = 10.0 ** rng.uniform(0, 12) * (1.0 if rng.random() < 0.5 else -1.0)      # ripple on a large baseline
-            sc_ = abs(a[0]) * 10.0 ** (-rng.uniform(6, 9))
+            sc_ = abs(a[0]) * 10.0 ** (-rng.uniform(6, 8))
             for k in ks:
                 a[k] *= sc_
                 b[k] *= sc_
@@ -1028,6 +1033,9 @@ def drive_fourier(eqsig, ctx, rng, dt, target, fam, N, even, kmode=None, kcap=No
     form = None
     vals = x
     r = rng.random() if kcap is None else 1.0        # very long records stay float64 (few harmonics: cheap reference)
+    m_ = float(np.max(np.abs(x)))
+    if not (1e-30 < m_ < 1e30) and r >= 0.06:          # extreme scales: float64 / python containers / views only
+        r = 1.0
     if r < 0.06:
         form = ['list', 'tuple', 'view-stride2', 'view-reversed', 'readonly'][int(rng.integers(5))]
         vals = make_form(rng, x, form)                   # same float64 numbers: still band-limited
